@@ -299,6 +299,24 @@ class Tree:
                           os.path.join(d, "libcrypt.so.1"))
         return d
 
+    def so_program(self, flavour, src, name):
+        """Link harness/<src> (-DVW_SO, no wrappers) against the freshly built
+        libcrypt.so.1 of `flavour` (so / so-asan)."""
+        cc, cflags, ldflags = FLAVOURS[flavour]
+        d = self.shared(flavour)
+        out = os.path.join(self.dir, flavour, name)
+        with self._lock(flavour + "-" + name):
+            if os.path.exists(out):
+                return out
+            gd = self.gendir()
+            cmd = ("%s -std=gnu11 -D_GNU_SOURCE -DVW_SO %s -I%s -I%s %s -o %s.tmp %s -L%s -l:libcrypt.so.1 "
+                   "-Wl,-rpath,%s -lpthread -ldl" % (
+                       cc, cflags.replace("-fPIC -DPIC", ""), gd, HARNESS,
+                       os.path.join(HARNESS, src), out, ldflags, d, d))
+            _run(cmd, shell=True)
+            os.rename(out + ".tmp", out)
+        return out
+
     def scratch(self, name):
         d = os.path.join(self.dir, "scratch-%s-%d" % (name, os.getpid()))
         shutil.rmtree(d, ignore_errors=True)
